@@ -20,9 +20,11 @@ Open Scope N_scope.
 
 (* (1) Within one configuration, for EVERY sequence of store / fetch / exists
    operations on files and chunks whose names satisfy [hist_guard] (relative
-   file names, simple scale keys, no empty name, no component ending in ".gz",
-   names pairwise prefix-free, other-layout chunk paths unused, MIME exemption
-   fixed per name; names with ".." may occur and are refused on both sides),
+   file names, relative non-empty scale keys - possibly nested -, no accepted
+   name with a component ending in ".gz", accepted names pairwise prefix-free,
+   other-layout chunk paths unused, MIME exemption fixed per name; empty
+   names, and names or keys mentioning "..", may occur and are refused on
+   both sides),
    started on a fresh dataset location, every returned value / outcome is the
    one of the abstract map: fetch returns the bytes most recently stored,
    store without overwrite on an existing name fails. *)
@@ -68,10 +70,11 @@ Theorem C12_no_overwrite_preserves :
 Proof. exact no_overwrite_preserves. Qed.
 Print Assumptions C12_no_overwrite_preserves.
 
-(* (3) documented locations *)
+(* (3) documented locations: key components, then the flat name or the three
+   axis directories; keys mentioning ".." are refused *)
 Theorem C12_path_spec : forall c is_flat key co,
-  simple_comp key = true ->
-  chunk_path c is_flat key co = base c ++ spec_chunk_rel is_flat key co.
+  key <> [] -> is_absolute key = false ->
+  chunk_path c is_flat key co = option_map (app (base c)) (spec_chunk_name is_flat key co).
 Proof. exact chunk_path_spec. Qed.
 Print Assumptions C12_path_spec.
 
@@ -90,11 +93,11 @@ Theorem C12_decimal_injective : forall a b : Z, dec_Z a = dec_Z b -> a = b.
 Proof. exact dec_Z_inj. Qed.
 Print Assumptions C12_decimal_injective.
 
-(* different (key, coordinates) give different paths; keys as generated:
-   non-empty, without '/', not "." or ".." *)
-Theorem C12_chunk_path_inj : forall c is_flat k co k' co',
-  simple_comp k = true -> simple_comp k' = true ->
-  chunk_path c is_flat k co = chunk_path c is_flat k' co' -> k = k' /\ co = co'.
+(* different (key components, coordinates) give different paths *)
+Theorem C12_chunk_path_inj : forall c is_flat k co k' co' p,
+  k <> [] -> is_absolute k = false -> k' <> [] -> is_absolute k' = false ->
+  chunk_path c is_flat k co = Some p -> chunk_path c is_flat k' co' = Some p ->
+  spec_key k = spec_key k' /\ co = co'.
 Proof. exact chunk_path_inj. Qed.
 Print Assumptions C12_chunk_path_inj.
 
@@ -147,57 +150,71 @@ Theorem C12_cross_config_mixed_layout_refuted :
 Proof. exact mixed_layout_refuted. Qed.
 Print Assumptions C12_cross_config_mixed_layout_refuted.
 
-(* (5) confinement of FileAccessor's file methods (kind 0 store_file, 1
-   fetch_file, 2 file_exists): relative names mentioning "..", and absolute
-   names not below the base, are refused and the tree is unchanged *)
-Theorem C12_confined_relative :
+(* (5) Confinement, BOTH accessors, file methods and chunk methods, for every
+   tree and every name / key.
+   [op_target c o] is the path an operation is about, None when the name or
+   key is refused (ValueError before any primitive). *)
+
+(* a refused operation does not touch the file system *)
+Theorem C12_confined_refused :
   forall (B : Type) (plain : list N -> B) (gz : N -> list N -> B) (gunzip : B -> gzres),
-  forall c t kind name buf mime ow,
-  is_absolute name = false -> spec_norm name = None ->
-  run_op B plain gz gunzip c t (file_op_of kind name buf mime ow) = (Refused, t).
-Proof. exact confined_relative. Qed.
-Print Assumptions C12_confined_relative.
+  forall c t o, op_target c o = None -> run_op B plain gz gunzip c t o = (Refused, t).
+Proof. exact refused_untouched. Qed.
+Print Assumptions C12_confined_refused.
 
-Theorem C12_confined_absolute :
+(* which names are refused: relative names that are empty or mention "..";
+   absolute names not below the base; scale keys mentioning ".."; for the
+   sharded accessor relative names mentioning ".." and absolute names not
+   below the base *)
+Theorem C12_escaping_refused : forall c,
+  (forall n, is_absolute n = false -> spec_norm n = None -> checked_path (base c) n = None) /\
+  (forall nn n, is_absolute n = true -> is_prefix (base c) (parse_parts n) = false ->
+                checked_path_gen nn (base c) n = None) /\
+  (forall k co f, k <> [] -> is_absolute k = false -> spec_key k = None -> chunk_path c f k co = None) /\
+  (forall n, is_absolute n = false -> existsb is_dotdot (parse_parts n) = true -> sh_path (base c) n = None).
+Proof. exact escaping_refused. Qed.
+Print Assumptions C12_escaping_refused.
+
+(* an accepted name / key denotes a path at or below the base without ".." ... *)
+Theorem C12_confined_target : forall c o p, op_target c o = Some p ->
+  exists rest, p = base c ++ rest /\ existsb is_dotdot rest = false.
+Proof. exact accepted_confined. Qed.
+Print Assumptions C12_confined_target.
+
+(* ... strictly below it for the file methods and for non-empty relative keys *)
+Theorem C12_confined_strict : forall c o p, strict_op o = true -> op_target c o = Some p ->
+  exists rest, p = base c ++ rest /\ existsb is_dotdot rest = false /\ rest <> [].
+Proof. exact accepted_strict. Qed.
+Print Assumptions C12_confined_strict.
+
+(* and EVERY path the operation hands to a file-system primitive (is_file,
+   makedirs, open, write, read, close), on every execution path, lies at or
+   below the base and is free of "..": FileAccessor ... *)
+Theorem C12_confined :
   forall (B : Type) (plain : list N -> B) (gz : N -> list N -> B) (gunzip : B -> gzres),
-  forall c t kind name buf mime ow,
-  is_absolute name = true -> is_prefix (base c) (parse_parts name) = false ->
-  run_op B plain gz gunzip c t (file_op_of kind name buf mime ow) = (Refused, t).
-Proof. exact confined_absolute. Qed.
-Print Assumptions C12_confined_absolute.
+  forall c o, strict_op o = true ->
+  calls_in B (below (base c)) (op_prog B plain gz gunzip c o).
+Proof. exact touches_only_below. Qed.
+Print Assumptions C12_confined.
 
-(* findings: where confinement fails on the code as it is *)
+Theorem C12_confined_trace :
+  forall (B : Type) (plain : list N -> B) (A : Type) (P : path -> Prop) (p : prog B A),
+  calls_in B P p -> forall t, Forall (fun cl => P (call_path B cl)) (trace B (plain []) t p).
+Proof. exact calls_in_trace. Qed.
+Print Assumptions C12_confined_trace.
 
-(* finding fa-empty-name-escapes *)
-Theorem C12_empty_name_refuted :
-  exists c name buf,
-    parse_parts name = [] /\
-    let '(outs, t) := w_run c [OStoreFile name buf [] false; OFetchFile name] in
-    outs = [Ok VUnit; Ok (VData (BPlain buf))] /\
-    exists q d, lookup blob t q = Some (File d) /\ lookup blob w_tree q = None /\
-                is_prefix (base c) q = false.
-Proof. exact empty_name_refuted. Qed.
-Print Assumptions C12_empty_name_refuted.
+(* ... and ShardedFileAccessor (kind 0 store_file, 1 fetch_file, 2 file_exists) *)
+Theorem C12_confined_sharded :
+  forall (B : Type) (plain : list N -> B),
+  forall b n buf mime ow kind,
+  calls_in B (below b) (sh_op_prog B plain b (file_op_of kind n buf mime ow)).
+Proof. exact sh_touches_only_below. Qed.
+Print Assumptions C12_confined_sharded.
 
-(* finding fa-chunk-key-unconfined *)
-Theorem C12_chunk_key_refuted :
-  exists c key co buf,
-    simple_comp key = false /\
-    let '(outs, t) := w_run c [OStoreChunk key co buf [] true] in
-    outs = [Ok VUnit] /\
-    exists q d, lookup blob t q = Some (File d) /\ lookup blob w_tree q = None /\
-                is_prefix (base c) q = false.
-Proof. exact chunk_key_refuted. Qed.
-Print Assumptions C12_chunk_key_refuted.
-
-(* finding sharded-unconfined *)
-Theorem C12_sharded_confined_refuted :
-  exists name1 name2,
-    spec_norm name1 = None /\ spec_norm name2 = None /\
-    let '(outs, t) := sh_run_ops blob BPlain w_base w_tree
-                        [OFetchFile name1; OStoreFile name2 [7] [] false] in
-    outs = [Ok (VData (BPlain [83])); Ok VUnit] /\
-    lookup blob t [[119]; [110]] = Some (File (BPlain [7])) /\
-    is_prefix w_base [[119]; [110]] = false.
-Proof. exact sharded_confined_refuted. Qed.
-Print Assumptions C12_sharded_confined_refuted.
+Theorem C12_confined_sharded_refused :
+  forall (B : Type) (plain : list N -> B),
+  forall b t n buf mime ow kind,
+  sh_path b n = None ->
+  run B (plain []) t (sh_op_prog B plain b (file_op_of kind n buf mime ow)) = (Refused, t).
+Proof. exact sh_refused_untouched. Qed.
+Print Assumptions C12_confined_sharded_refused.
